@@ -72,7 +72,9 @@ def cases(tier, seed):
         for seq in pick:
             yield {"family": fam, "seq": list(seq), "mseed": rnd.randrange(1000)}
         # other numerical settings at one call / a training step with part of the model frozen or under other settings
-        for new in ("pred_jitter", "train_step_frozen", "train_step_jitter", "pred_loose", "train_step_via_mll", "load_sd_partial"):
+        for new in ("pred_jitter", "train_step_frozen", "train_step_jitter", "pred_loose", "train_step_via_mll", "load_sd_partial", "fantasy_selfcheck"):
+            if new == "fantasy_selfcheck" and (fam in VAR_FAMS or fam in ("sgpr", "batch_nan", "default_iterative")):
+                continue
             if fam == "batch_nan" and new == "pred_jitter":
                 continue
             if new == "pred_loose" and fam in VAR_FAMS:
@@ -162,9 +164,10 @@ def _run_case(case, ctx, fam):
         if not all(bool(__import__("torch").isfinite(p_).all()) for p_ in m.parameters()):
             ctx.reject(f"operation produced non-finite parameters: {case['family']}:{op}")
             return
-        if op == "var_fantasy" and out is not None:
-            ctx.close("variational_fantasy_first_prediction_matches_recomputed", torch.cat([out[1][0].reshape(-1), out[1][1].reshape(-1)]), torch.cat([out[2][0].reshape(-1), out[2][1].reshape(-1)]), (1e-6, 1e-6),
-                      cls=case["family"] + ":var_fantasy", step=i, op=op, prefix=case["seq"][: i + 1])
+        if op in ("var_fantasy", "fantasy_selfcheck") and out is not None:
+            ctx.close("variational_fantasy_first_prediction_matches_recomputed" if op == "var_fantasy" else "fantasy_first_prediction_matches_recomputed", torch.cat([out[1][0].reshape(-1), out[1][1].reshape(-1)]),
+                      torch.cat([out[2][0].reshape(-1), out[2][1].reshape(-1)]), (1e-6, 1e-6) if op == "var_fantasy" else (1e-5, 1e-5),
+                      cls=case["family"] + ":" + op, step=i, op=op, prefix=case["seq"][: i + 1])
         if op.startswith("pred"):
             had_pred = True
             # the operation's own output, under the operation's own settings, against a fresh model in the same state
